@@ -165,7 +165,7 @@ def judge_c15(fs, trace, job, golden, ctx):
     if toks:
         text = {}
         for lang in LANGS:
-            text[lang] = "\n".join(trace.written[p].decode("utf-8", "replace")
+            text[lang] = "\n".join(posixpath.basename(p) + "\n" + trace.written[p].decode("utf-8", "replace")
                                    for p in by_emitter.get(EMITTER[lang], [])).lower()
         # The Fortran module declares a bind(C) interface named c_<name> for every *C*
         # wrapper; that declaration belongs to the C wrapper.  A declaration "appears in the
@@ -220,98 +220,195 @@ TOKEN_SHAPES = [
 LUA_OK = ("plain", "scalar", "bool", "default")
 
 
-def token_library(rng, idx):
+def token_spec(rng, idx):
+    """A library description whose functions carry unique names (tokens) and per-declaration
+    wrap overrides; rendered later for each library-level (python, lua) pair."""
     lib = rng.choice(["toklib", "alpha"])
-    lines = list(synth.COPYRIGHT) + ["library: %s" % lib, "cxx_header: %s.hpp" % lib]
     (wc, wf) = rng.choice(CF_DOMAIN)
-    lf = {"c": wc, "fortran": wf, "python": rng.random() < 0.5, "lua": rng.random() < 0.4}
-    lines.append("options:")
-    lines.append("  debug: True")
+    entries = []
+    counter = [0]
+
+    def add_fn(indent, allow_overload=True):
+        shape, pat = rng.choice(TOKEN_SHAPES)
+        tok = "zq%dfn%dx" % (idx, counter[0])
+        counter[0] += 1
+        over = {}
+        if rng.random() < 0.6:
+            (oc, of) = rng.choice(CF_DOMAIN)
+            cand = {"c": oc, "fortran": of}
+            if rng.random() < 0.6:
+                cand["python"] = rng.random() < 0.5
+            if rng.random() < 0.5:
+                cand["lua"] = rng.random() < 0.5
+            over = {k: v for k, v in cand.items() if rng.random() < 0.8}
+            if over.get("fortran") and "c" not in over and not wc:
+                over["c"] = True
+        entries.append({"kind": "fn", "indent": indent, "decl": pat.format(t=tok), "tok": tok, "shape": shape,
+                        "over": over})
+        if allow_overload and shape in ("plain", "scalar", "bool") and rng.random() < 0.3:
+            # a C++ overload of the same name with its own flags
+            over2 = {}
+            if rng.random() < 0.7:
+                (oc, of) = rng.choice(CF_DOMAIN)
+                over2 = {"c": oc, "fortran": of}
+                if rng.random() < 0.5:
+                    over2["python"] = rng.random() < 0.5
+            entries.append({"kind": "fn", "indent": indent, "decl": "void %s(double first, int second)" % tok,
+                            "tok": tok, "shape": "overload", "over": over2})
+
+    for _ in range(rng.randint(2, 5)):
+        add_fn("")
+    if rng.random() < 0.5:
+        cname = rng.choice(synth.CLASSES)
+        entries += [{"kind": "raw", "line": "- decl: class %s" % cname}, {"kind": "raw", "line": "  declarations:"},
+                    {"kind": "raw", "line": "  - decl: %s()" % cname}, {"kind": "raw", "line": "  - decl: ~%s()" % cname}]
+        for _ in range(rng.randint(1, 3)):
+            add_fn("  ", allow_overload=False)
+        for e in entries:
+            e.setdefault("ns", False)  # everything so far is outside any namespace
+    def ns_over():
+        # container-level override: inherited by the members
+        if rng.random() < 0.5:
+            return {}
+        (oc, of) = rng.choice(CF_DOMAIN)
+        over = {"c": oc, "fortran": of}
+        if rng.random() < 0.4:
+            over["python"] = rng.random() < 0.5
+        if over.get("fortran") and not over.get("c"):
+            over["c"] = True
+        return over
+
+    if rng.random() < 0.6:
+        outer = "zq%dnsa" % idx
+        entries.append({"kind": "ns", "indent": "", "name": outer, "over": ns_over(), "depth": 1})
+        for _ in range(rng.randint(0, 2)):
+            add_fn("  ", allow_overload=False)
+        if rng.random() < 0.7:
+            entries.append({"kind": "ns", "indent": "  ", "name": "zq%dnsb" % idx, "over": ns_over(), "depth": 2})
+            for _ in range(rng.randint(1, 2)):
+                add_fn("    ", allow_overload=False)
+    return {"lib": lib, "c": wc, "fortran": wf, "entries": entries}
+
+
+def render_token_library(spec, wp, wl):
+    """Return (yaml text, library flags, tokens) or None if a declaration falls outside the domain."""
+    lf = {"c": spec["c"], "fortran": spec["fortran"], "python": wp, "lua": wl}
+    lines = list(synth.COPYRIGHT) + ["library: %s" % spec["lib"], "cxx_header: %s.hpp" % spec["lib"], "options:",
+                                     "  debug: True"]
     for lang in LANGS:
         lines.append("  wrap_%s: %s" % (lang, lf[lang]))
     lines.append("declarations:")
     tokens = {}
-    n = 0
-
-    def add_fn(indent, in_class=None):
-        nonlocal n
-        shape, pat = rng.choice(TOKEN_SHAPES)
-        tok = "zq%dfn%dx" % (idx, n)
-        n += 1
-        lines.append("%s- decl: %s" % (indent, pat.format(t=tok)))
-        eff = dict(lf)
-        if rng.random() < 0.6:
-            (oc, of) = rng.choice(CF_DOMAIN)
-            over = {"c": oc, "fortran": of}
-            if rng.random() < 0.6:
-                over["python"] = rng.random() < 0.5
-            if rng.random() < 0.5:
-                over["lua"] = rng.random() < 0.5
-            # only some keys are written; unspecified ones inherit
-            keys = [k for k in LANGS if k in over and rng.random() < 0.8]
-            if "fortran" in keys and over["fortran"] and "c" not in keys and not eff["c"]:
-                keys.append("c")
-            if keys:
-                lines.append("%s  options:" % indent)
-                for k in keys:
-                    lines.append("%s    wrap_%s: %s" % (indent, k, over[k]))
-                    eff[k] = over[k]
+    scope = {0: dict(lf)}  # effective defaults per nesting depth (options are inherited)
+    open_ns = []  # (depth, token) of the namespaces a function is nested in
+    for e in spec["entries"]:
+        if e["kind"] == "raw":
+            lines.append(e["line"])
+            continue
+        if e["kind"] == "ns":
+            d = e["depth"]
+            open_ns = [x for x in open_ns if x[0] < d]
+            base = dict(scope[d - 1])
+            lines.append("%s- decl: namespace %s" % (e["indent"], e["name"]))
+            if e["over"]:
+                lines.append("%s  options:" % e["indent"])
+                for k in LANGS:
+                    if k in e["over"]:
+                        lines.append("%s    wrap_%s: %s" % (e["indent"], k, e["over"][k]))
+                        base[k] = e["over"][k]
+            lines.append("%s  declarations:" % e["indent"])
+            scope[d] = base
+            open_ns.append((d, e["name"]))
+            tokens[e["name"]] = {"c": bool(base["c"]), "fortran": bool(base["fortran"]), "python": bool(base["python"]),
+                                 "lua": False, "shape": "namespace", "lua_unsupported": True, "members": 0}
+            continue
+        ind = e["indent"]
+        depth = len(ind) // 2
+        if depth == 0 or not any(l.startswith("- decl: namespace") or l.startswith("  - decl: namespace")
+                                 for l in lines[-40:]):
+            pass
+        lines.append("%s- decl: %s" % (ind, e["decl"]))
+        in_ns = [x for x in open_ns if x[0] <= depth] if (open_ns and depth >= 1 and e.get("ns", True)) else []
+        eff = dict(scope[max(x[0] for x in in_ns)] if in_ns else lf)
+        if e["over"]:
+            lines.append("%s  options:" % ind)
+            for k in LANGS:
+                if k in e["over"]:
+                    lines.append("%s    wrap_%s: %s" % (ind, k, e["over"][k]))
+                    eff[k] = e["over"][k]
         if eff["fortran"] and not eff["c"]:
-            return None  # outside the domain; the whole library is discarded
-        if shape not in LUA_OK:
-            eff["lua_unsupported"] = True
-        eff["shape"] = shape
-        tokens[tok] = eff
-        return tok
-
-    ok = True
-    for _ in range(rng.randint(2, 6)):
-        if add_fn("") is None:
-            ok = False
-    if rng.random() < 0.5:
-        cname = rng.choice(synth.CLASSES)
-        lines.append("- decl: class %s" % cname)
-        lines.append("  declarations:")
-        lines.append("  - decl: %s()" % cname)
-        lines.append("  - decl: ~%s()" % cname)
-        for _ in range(rng.randint(1, 3)):
-            if add_fn("  ") is None:
-                ok = False
-    return ("\n".join(lines) + "\n", lib, lf, tokens) if ok else None
+            return None
+        cur = tokens.get(e["tok"])
+        if cur is None:
+            cur = {l: False for l in LANGS}
+            cur["shape"] = e["shape"]
+            cur["lua_unsupported"] = False
+            tokens[e["tok"]] = cur
+        for l in LANGS:
+            cur[l] = cur[l] or bool(eff[l])  # a name appears if any of its overloads is wrapped
+        for (_d, nsname) in in_ns:
+            # a namespace appears in a language's output iff one of its members is wrapped there
+            t = tokens[nsname]
+            t["members"] += 1
+            for l in LANGS:
+                t[l] = t[l] or bool(eff[l])
+        if e["shape"] not in LUA_OK:
+            cur["lua_unsupported"] = True
+        if e["shape"] == "overload":
+            cur["shape"] = "overload"
+    for name in [n for n, t in tokens.items() if t["shape"] == "namespace" and not t["members"]]:
+        del tokens[name]
+    return "\n".join(lines) + "\n", lf, tokens
 
 
 def token_jobs(seeds, n):
+    """n token libraries, each rendered for the four library-level (python, lua) pairs; the four
+    siblings form a family (C and Fortran files must be byte-identical among them)."""
     out = []
-    i = 0
     k = 0
-    while len(out) < n and k < n * 6:
+    made = 0
+    while made < n and k < n * 8:
         rng = seeds.rng("c15tok", k)
         k += 1
-        r = token_library(rng, k)
-        if r is None:
+        spec = token_spec(rng, k)
+        rendered = {}
+        for wp in (False, True):
+            for wl in (False, True):
+                rendered[(wp, wl)] = render_token_library(spec, wp, wl)
+        if any(r is None for r in rendered.values()):
             continue
-        text, lib, lf, tokens = r
-        # Lua supports few argument kinds: unsupported shapes are not asserted for Lua
-        toks = {}
-        for t, eff in tokens.items():
-            e = {l: bool(eff[l]) for l in LANGS}
-            e["shape"] = eff["shape"]
-            if eff.get("lua_unsupported"):
-                e["lua"] = None
-            if eff["shape"] == "strret" and e["c"] and not e["fortran"]:
-                # documented limitation, logged by shroud: a function returning a std::string
-                # instance gets no plain C wrapper, only the bufferify one made for Fortran
-                e["c"] = None
-            toks[t] = e
         dargv, mk, pat = pool.dir_pattern(rng)
-        fname = IN_DIR + "/%s.yaml" % lib
-        argv = ["--path", IN_DIR] + dargv + ["--option", "debug_testsuite=true", "--nowrite-version",
-                                             "--cfiles", WORK + "/c.lst", "--ffiles", WORK + "/f.lst", fname]
-        nested_on = sorted(l for l in LANGS if any(eff[l] for eff in tokens.values()))
-        meta = {"source": "c15tok", "cwd_free": False, "yaml": lib,
-                "c15": {"flags": lf, "nested_on": nested_on, "tokens": toks, "dirpat": pat}}
-        out.append(Job("c15tok/%d-%s" % (len(out), lib), {fname: text}, argv, sorted(set(mk + [WORK])),
-                       meta=meta))
+        fam = "c15tok/%d-%s" % (made, spec["lib"])
+        for (wp, wl), (text, lf, tokens) in sorted(rendered.items()):
+            toks = {}
+            for t, eff in tokens.items():
+                e = {l: bool(eff[l]) for l in LANGS}
+                e["shape"] = eff["shape"]
+                if eff["shape"] == "namespace":
+                    # a namespace is a declaration too.  Only one direction is asserted: when it is off
+                    # for a language itself and none of its members turns that language on, its name
+                    # appears nowhere in that language's output (file names included).  What an "on"
+                    # namespace without wrapped members produces differs per emitter and is not asserted.
+                    for l in LANGS:
+                        if e[l]:
+                            e[l] = None
+                if eff.get("lua_unsupported") or eff["shape"] == "overload":
+                    e["lua"] = None  # Lua supports few argument kinds: not asserted
+                if eff["shape"] == "strret" and e["c"] and not e["fortran"]:
+                    # documented limitation, logged by shroud: a function returning a std::string
+                    # instance gets no plain C wrapper, only the bufferify one made for Fortran
+                    e["c"] = None
+                toks[t] = e
+            fname = IN_DIR + "/%s.yaml" % spec["lib"]
+            argv = ["--path", IN_DIR] + dargv + ["--option", "debug_testsuite=true", "--nowrite-version",
+                                                 "--cfiles", WORK + "/c.lst", "--ffiles", WORK + "/f.lst", fname]
+            nested_on = sorted(l for l in LANGS if any(eff[l] for eff in tokens.values()))
+            jid = "%s/%d%d" % (fam, int(wp), int(wl))
+            meta = {"source": "c15tok", "cwd_free": False, "yaml": spec["lib"], "family": fam,
+                    "c15": {"flags": lf, "nested_on": nested_on, "tokens": toks, "dirpat": pat,
+                            "cf_ref": "%s/00" % fam}}
+            out.append(Job(jid, {fname: text}, argv, sorted(set(mk + [WORK])), meta=meta))
+        made += 1
     return out
 
 
@@ -384,8 +481,8 @@ class C15Engine(gcheck.GEngine):
     executor = "sim.c15:execute_history_c15"
 
     TIER = {
-        "quick": dict(nfam=14, ntok=30, nother=10, sweep_libs=2),
-        "thorough": dict(nfam=90, ntok=300, nother=40, sweep_libs=8),
+        "quick": dict(nfam=14, ntok=14, nother=10, sweep_libs=2),
+        "thorough": dict(nfam=90, ntok=160, nother=40, sweep_libs=8),
     }
 
     def build_pool(self):
